@@ -836,7 +836,8 @@ def case_fuzz(case, col=None):
     ureg = env.ureg("float")
     t = s.strip(" \t")
     tree = None
-    if t and not any(ch in t for ch in "\n\r\\\f\v#;") and len(t) <= 64:
+    # (ASCII only: Python NFKC-normalises identifiers - a fullwidth 'm' is the name m for ast.parse - pint keeps names as written)
+    if t and t.isascii() and not any(ch in t for ch in "\n\r\\\f\v#;") and len(t) <= 64:
         try:
             tree = _strip_pos(_ast_to_tree(t, ast.parse(t, mode="eval").body))
         except (_NotInDomain, SyntaxError, ValueError, RecursionError, MemoryError):
